@@ -31,7 +31,7 @@ func (c16) Rule() string {
 }
 func (c16) Batches(string) int { return 32 }
 func (c16) Required(string) []string {
-	return []string{"chains", "traces_checked", "cfg.noopt", "cfg.opt", "cfg.encoded", "shift.300", "fail.throw-error", "fail.operator", "fail.builtin", "fail.arity", "fail.index", "fail.notcallable", "fail.gocallback", "fail.finally-rethrow",
+	return []string{"chains", "traces_checked", "cfg.noopt", "cfg.opt", "cfg.encoded", "shift.300", "fail.throw-error", "fail.const-lhs", "fail.operator", "fail.builtin", "fail.arity", "fail.index", "fail.notcallable", "fail.gocallback", "fail.finally-rethrow",
 		"callee.closure", "callee.selector", "callee.module", "callee.argument", "multi_file_traces", "compile_error_positions", "depth.8"}
 }
 func (c16) Assumptions() []string {
@@ -57,7 +57,7 @@ type c16wit struct {
 	Why    string   `json:"why"`
 }
 
-var c16fails = []string{"throw-error", "throw-string", "operator", "builtin", "arity", "index", "notcallable", "gocallback", "finally-rethrow", "in-loop-if"}
+var c16fails = []string{"const-lhs", "throw-error", "throw-string", "operator", "builtin", "arity", "index", "notcallable", "gocallback", "finally-rethrow", "in-loop-if"}
 
 type c16file struct {
 	name  string
@@ -87,6 +87,11 @@ func c16filler(r *rand.Rand, f *c16file) {
 // failLines writes the failing statement(s) into f and returns the line that must be reported.
 func c16failLines(r *rand.Rand, f *c16file, kind, ind string) int {
 	switch kind {
+	case "const-lhs":
+		// the failing expression starts with a literal-valued constant (replaced by the optimizer)
+		f.add(ind + "const kc = 7")
+		f.add(ind + "em := {}")
+		return f.add(ind + "q := kc - em")
 	case "throw-error":
 		return f.add(ind + "throw error(\"boom\")")
 	case "throw-string":
